@@ -198,8 +198,8 @@ def sections(tier):
         secs.append(S('p2b:' + ''.join(map(str, sh)), p2b(sh), budget_s=170 if tier == 'quick' else 1500, replayer='p2b',
                       config='preene2betafree %s' % (sh,), timeout_ms=30000))
     for c in (['X1s', 'X1', 'X4r'] if tier == 'quick' else ['X1s', 'X1', 'X4r', 'X2', 'X2b', 'X3']):
-        secs.append(S('inter:' + c, interstitial(c), budget_s=170 if tier == 'quick' else 3000, replayer='inter', config=c,
-                      timeout_ms=60000 if tier == 'quick' else 300000))
+        secs.append(S('inter:' + c, interstitial(c), budget_s=170 if tier == 'quick' else 1200, replayer='inter', config=c,
+                      timeout_ms=60000 if tier == 'quick' else 120000))
     return secs
 
 
